@@ -954,6 +954,11 @@ class Segment(Geodesic):
         base_ring = utils.guess_literal_ring(end_data)
         dim = end_data.shape[-1]
 
+        # use the representatives of the endpoints in the affine chart
+        # x_0 = 1: then <x - y, x - y> > 0 for distinct endpoints, but
+        # it can vanish for other representatives of the same points
+        end_data = end_data / end_data[..., :1]
+
         products = end_data @ minkowski(
             dim, base_ring=base_ring
         ) @ end_data.swapaxes(-1, -2)
